@@ -155,6 +155,9 @@ func runC19(c *core.Ctx) {
 		scale = append(scale, k.Query)
 	}
 	scale = append(scale, WideQueryDocs()...)
+	for _, b := range BlockStringBodies() {
+		scale = append(scale, "{a(s:"+b+")}", "query($v: String = "+b+") @d(x: ["+b+", {k: "+b+"}]) {a}")
+	}
 	tied := map[string]bool{}
 	for _, k := range ScaleDocsUpTo(101, 256) {
 		if k.Tag != "deep100" {
